@@ -28,6 +28,10 @@
 (*  "partial-remove"   RemoveAccount drops the code reference before the   *)
 (*                     fallible data-trie step, so a failing removal keeps *)
 (*                     the account but has decremented/deleted its code    *)
+(*  "stale-code-hash-overwrite"  an account object that is stale in its    *)
+(*                     code hash and never called SetCode is written with  *)
+(*                     its own CodeHash field (whole-record overwrite):    *)
+(*                     the leaf's code hash changes without the entries    *)
 (* With KnownDefects = {} the module is the intended design.               *)
 (***************************************************************************)
 EXTENDS Integers, Sequences, FiniteSets, TLC
@@ -36,16 +40,21 @@ CONSTANTS Addr,          \* addresses (strings)
           Code,          \* code identifiers = code hashes (strings, "" = no code)
           SKey,          \* storage keys (strings)
           Changes,       \* set of change records a Save may apply (see Save)
+          MaxHandles,    \* account objects a caller may keep per address (0: load-modify-save only)
+          HChanges,      \* change records applied when a kept object is saved (no storage writes)
           KnownDefects,
           Log(_, _)
 
 VARIABLES main, codeTbl, tries, holder, journal, committed, persisted,
+          hnd,           \* account OBJECTS the caller keeps: address -> sequence of handles (object fields as they are
+                         \* in the object: they go stale when the account is saved through another object or a
+                         \* save is reverted)
           stateAt,       \* history: journal length at a call boundary -> abstract state then
           expect,        \* history: the abstract state the property demands after the last call
           hist           \* observation only
 
-cvars == <<main, codeTbl, tries, holder, journal, committed, persisted, stateAt, expect>>
-vars  == <<main, codeTbl, tries, holder, journal, committed, persisted, stateAt, expect, hist>>
+cvars == <<main, codeTbl, tries, holder, journal, committed, persisted, hnd, stateAt, expect>>
+vars  == <<main, codeTbl, tries, holder, journal, committed, persisted, hnd, stateAt, expect, hist>>
 
 NoSto   == [k \in SKey |-> ""]
 NilRoot == [has |-> FALSE, m |-> NoSto]      \* RootHash = nil (account never had a data trie)
@@ -110,6 +119,7 @@ Init ==
     /\ journal = <<>>
     /\ committed = [main |-> main, codeTbl |-> codeTbl]
     /\ persisted = {}
+    /\ hnd = [a \in Addr |-> <<>>]
     /\ stateAt = (0 :> Abs)
     /\ expect = Abs
     /\ hist = <<[a |-> "New", in |-> [x |-> 0], out |-> [err |-> FALSE, jl |-> 0], st |-> Abs]>>
@@ -153,12 +163,69 @@ Save(a, ch) ==
                 ELSE IF tid = Len(tries) + 1 THEN Append(tries, cont) ELSE [tries EXCEPT ![tid] = cont]
     /\ holder' = IF tid = 0 THEN holder ELSE [holder EXCEPT ![a] = tid]
     /\ journal' = j3
-    /\ UNCHANGED <<committed, persisted>>
+    /\ UNCHANGED <<committed, persisted, hnd>>
     /\ stateAt' = Snap(Len(j3), Abs')
     /\ expect' = Abs'
     /\ hist' = Log(hist, Rec("Save", [a |-> a, dn |-> ch.dn, bal |-> ch.bal, owner |-> ch.owner, meta |-> ch.meta,
                                       code |-> ch.code, w |-> ch.w],
                              [err |-> FALSE, jl |-> Len(j3)]))
+
+
+(* ---- account objects kept by the caller (the transaction processor holds sender/receiver objects across calls   *)
+(* and reverts).  A handle is the object's own copy of the fields + the SetCode state (hasNewCode / code bytes).   *)
+HandleOf(r) == [nonce |-> r.nonce, bal |-> r.bal, owner |-> r.owner, meta |-> r.meta, code |-> r.code, root |-> r.root,
+                hasNew |-> FALSE, newCode |-> ""]
+
+(* LoadAccount(a), the object is kept as handle i (a full slot is re-used) *)
+Load(a, i) ==
+    /\ i \in 1..MaxHandles /\ i <= Len(hnd[a]) + 1
+    /\ hnd' = [hnd EXCEPT ![a] = IF i = Len(@) + 1 THEN Append(@, HandleOf(main[a])) ELSE [@ EXCEPT ![i] = HandleOf(main[a])]]
+    /\ UNCHANGED <<main, codeTbl, tries, holder, journal, committed, persisted, stateAt, expect>>
+    /\ hist' = Log(hist, Rec("Load", [a |-> a, h |-> i], [err |-> FALSE, jl |-> Len(journal)]))
+
+(* setters on the kept object i of a (no storage writes), then SaveAccount(that object).                           *)
+(* saveCode compares the new code hash with the code hash of the TRIE version of the account, not the object's;     *)
+(* an object that never called SetCode is written with its own CodeHash field.                                     *)
+SaveH(a, i, ch) ==
+    LET h     == hnd[a][i]
+        old   == main[a]
+        hasNew  == h.hasNew \/ ch.code # "keep"
+        newCode == IF ch.code # "keep" THEN ch.code ELSE h.newCode
+        \* the object is stale in its code hash and carries no SetCode: the leaf written has the object's hash
+        lost  == ~hasNew /\ h.code # old.code
+        oldH  == old.code
+        newH  == IF hasNew THEN newCode
+                 ELSE IF "stale-code-hash-overwrite" \in KnownDefects THEN h.code ELSE oldH
+        cchg  == hasNew /\ newH # oldH
+        oldRefs == IF oldH = "" THEN 0 ELSE codeTbl[oldH]
+        tbl1  == IF ~cchg THEN codeTbl
+                 ELSE LET t1 == DecRef(codeTbl, oldH)
+                      IN  IF newH # "" THEN [t1 EXCEPT ![newH] = @ + 1] ELSE t1
+        rec   == [ex |-> TRUE, nonce |-> h.nonce + ch.dn,
+                  bal |-> IF ch.bal < 0 THEN h.bal ELSE ch.bal,
+                  owner |-> IF ch.owner = "keep" THEN h.owner ELSE ch.owner,
+                  meta |-> IF ch.meta = "keep" THEN h.meta ELSE ch.meta,
+                  code |-> newH, root |-> h.root]
+        j1    == Append(journal, IF old.ex THEN [t |-> "acc", a |-> a, old |-> old] ELSE [t |-> "create", a |-> a])
+        j2    == IF cchg THEN Append(j1, [t |-> "code", oldH |-> oldH, oldRefs |-> oldRefs, newH |-> newH]) ELSE j1
+    IN
+    /\ i \in 1..Len(hnd[a])
+    /\ ch.w = <<>>
+    /\ main' = [main EXCEPT ![a] = rec]
+    /\ codeTbl' = tbl1
+    /\ journal' = j2
+    /\ hnd' = [hnd EXCEPT ![a][i] = [nonce |-> rec.nonce, bal |-> rec.bal, owner |-> rec.owner, meta |-> rec.meta,
+                                      code |-> rec.code, root |-> rec.root, hasNew |-> hasNew, newCode |-> newCode]]
+    /\ UNCHANGED <<tries, holder, committed, persisted>>
+    /\ stateAt' = Snap(Len(j2), Abs')
+    /\ expect' = Abs'
+    /\ hist' = Log(hist, Rec("SaveH", [a |-> a, h |-> i, dn |-> ch.dn, bal |-> ch.bal, owner |-> ch.owner, meta |-> ch.meta,
+                                       code |-> ch.code, lost |-> lost],
+                             [err |-> FALSE, jl |-> Len(j2)]))
+
+HandleActs ==
+    \/ \E a \in Addr, i \in 1..MaxHandles : Load(a, i)
+    \/ \E a \in Addr, i \in 1..MaxHandles, ch \in HChanges : SaveH(a, i, ch)
 
 (* RemoveAccount(a) *)
 Remove(a) ==
@@ -176,13 +243,13 @@ Remove(a) ==
                       ELSE IF "stale-data-trie" \in KnownDefects THEN <<eRem>> ELSE <<eRem, eHold>>
     IN
     IF ~old.ex
-    THEN /\ UNCHANGED <<main, codeTbl, tries, holder, journal, committed, persisted, stateAt, expect>>
+    THEN /\ UNCHANGED <<main, codeTbl, tries, holder, journal, committed, persisted, hnd, stateAt, expect>>
          /\ hist' = Log(hist, Rec("Remove", [a |-> a], [err |-> TRUE, jl |-> Len(journal)]))
     ELSE IF ~ok
     THEN \* the data trie root is not in storage (changed since the last commit): RemoveAccount returns an error
          /\ journal' = IF partial THEN journal \o <<eAcc, eCode>> ELSE Append(journal, eAcc)
          /\ codeTbl' = IF partial THEN DecRef(codeTbl, oldH) ELSE codeTbl
-         /\ UNCHANGED <<main, tries, holder, committed, persisted>>
+         /\ UNCHANGED <<main, tries, holder, committed, persisted, hnd>>
          /\ stateAt' = Snap(Len(journal'), Abs')
          /\ expect' = Abs'
          /\ hist' = Log(hist, Rec("Remove", [a |-> a], [err |-> TRUE, jl |-> Len(journal')]))
@@ -191,7 +258,7 @@ Remove(a) ==
          /\ codeTbl' = DecRef(codeTbl, oldH)
          /\ main' = [main EXCEPT ![a] = Absent]
          /\ tries' = IF old.root.has /\ holder[a] = 0 THEN Append(tries, old.root.m) ELSE tries
-         /\ UNCHANGED <<holder, committed, persisted>>
+         /\ UNCHANGED <<holder, committed, persisted, hnd>>
          /\ stateAt' = Snap(Len(journal'), Abs')
          /\ expect' = Abs'
          /\ hist' = Log(hist, Rec("Remove", [a |-> a], [err |-> FALSE, jl |-> Len(journal')]))
@@ -207,7 +274,7 @@ Revert(n) ==
                               Len(journal), n)
             IN  /\ main' = S.main /\ codeTbl' = S.codeTbl /\ tries' = S.tries /\ holder' = S.holder
                 /\ journal' = SubSeq(journal, 1, n)
-    /\ UNCHANGED <<committed, persisted>>
+    /\ UNCHANGED <<committed, persisted, hnd>>
     /\ stateAt' = [i \in {j \in DOMAIN stateAt : j <= n} |-> stateAt[i]]
     /\ expect' = stateAt[n]
     /\ hist' = Log(hist, Rec("Revert", [n |-> n], [err |-> FALSE, jl |-> Len(journal')]))
@@ -222,7 +289,7 @@ Commit ==
     /\ persisted' = persisted \cup {<<a, tries[holder[a]]>> : a \in {x \in Addr : holder[x] # 0}}
     /\ committed' = [main |-> main, codeTbl |-> codeTbl]
     /\ journal' = <<>> /\ tries' = <<>> /\ holder' = NoHolder
-    /\ UNCHANGED <<main, codeTbl>>
+    /\ UNCHANGED <<main, codeTbl, hnd>>
     /\ stateAt' = (0 :> Abs')
     /\ expect' = Abs          \* a commit changes nothing a client can read
     /\ hist' = Log(hist, Rec("Commit", [x |-> 0], [err |-> FALSE, jl |-> 0]))
@@ -233,7 +300,7 @@ NextCore ==
     \/ \E n \in DOMAIN stateAt : Revert(n)
     \/ Commit
 
-Next == NextCore \/ RevertBad
+Next == NextCore \/ RevertBad \/ HandleActs
 
 Spec == Init /\ [][Next]_vars
 
